@@ -188,6 +188,9 @@ class Ctx:
             procs = 16 if (self.tier == "thorough" and len(inputs) >= 2000) else (8 if len(inputs) >= 400 else 1)
         if procs <= 1:
             for inp in inputs:
+                if len(self.violations) >= 50:
+                    self.notes.append(f"{oracle}: sweep stopped after 50 violations")
+                    break
                 if self.left() < 45:
                     self.notes.append(f"{oracle}: sweep stopped early (time budget) ")
                     break
@@ -199,6 +202,10 @@ class Ctx:
         chunks = [inputs[i::procs * 8] for i in range(procs * 8)]
         with mp.get_context("fork").Pool(procs) as pool:
             for res in pool.imap_unordered(_pool_chunk, chunks):
+                if len(self.violations) >= 50:
+                    self.notes.append(f"{oracle}: sweep stopped after 50 violations")
+                    pool.terminate()
+                    break
                 for inp, ok, detail, cls in res:
                     self.count("oracle:" + oracle)
                     self.nontriv((oracle, json.dumps(inp, sort_keys=True, ensure_ascii=False)))
